@@ -427,6 +427,8 @@ func worldC07fp(w *World) {
 	}
 	fp.Start()
 	cb := startCountingBackend(w)
+	// sabotaged uploads hit responses that are still being streamed
+	cb.Stream = func(tok string) bool { return strings.HasPrefix(tok, "s") }
 	startAgent(w)
 	w.K.Spawn("controller", func() {
 		for i := 0; i < 3000; i++ {
